@@ -160,7 +160,8 @@ def run(tier, seed):
         t_mod[name] = [round(tb - t0, 1), round(time.time() - tb, 1)]
         if not b.ok:
             return b, None
-        cl = [["obs", cmap[i], bool(cs[i].get("misuse"))] for i in range(len(cs))]
+        # misuse cells are flagged risky and run in a forked copy of the driver (a crash costs a fork, not a restart)
+        cl = [["obs_risky" if cs[i].get("misuse") else "obs", cmap[i], bool(cs[i].get("misuse"))] for i in range(len(cs))]
         if facts:
             cl.append(["facts", []])
         tr = time.time()
